@@ -21,6 +21,10 @@ CONSTANTS
   DevIdleSweep = FALSE
   DevFwdNoEof = TRUE
   SrcKinds = {"direct"}
+  ErrClasses = {"plain"}
+  PollOn = FALSE
+  RetryOn = {}
+  RetryWriteOn = {}
   DevBufio = FALSE
   AttachKinds = {"fwd"}
   HoldOn = FALSE
